@@ -54,23 +54,42 @@ Record tview := mkTV {
   tv_pnx : mptr;                  (* ... and the value of its next field *)
   tv_inG : list nat;              (* nodes I know to be linked *)
   tv_idx : list (nat * nat);      (* (x, i): x sits at index i of the chain and i <= length dpre (deleted prefix) *)
-  tv_hlow : nat                   (* a lower bound of head's index *)
+  tv_hlow : nat;                  (* a lower bound of head's index *)
+  tv_wit : option nat             (* enqueuer: a node I saw as the last one (next == null) during this call *)
 }.
 
-Record Aux := mkAux { dpre : list nat; bnd : nat; live : list nat; hidx : nat; views : nat -> tview }.
+(** [born x]: how many operations had been invoked when node x was linked; [ninv]: invoked so far *)
+Record Aux := mkAux { dpre : list nat; bnd : nat; live : list nat; hidx : nat; views : nat -> tview;
+                      born : nat -> nat; ninv : nat }.
 Definition view (a : Aux) (t : nat) : tview := views a t.
 Definition updv (vs : nat -> tview) (t : nat) (v : tview) : nat -> tview :=
   fun x => if Nat.eqb x t then v else vs x.
-Definition auxv (a : Aux) (t : nat) (v : tview) : Aux := mkAux (dpre a) (bnd a) (live a) (hidx a) (updv (views a) t v).
+Definition auxv (a : Aux) (t : nat) (v : tview) : Aux :=
+  mkAux (dpre a) (bnd a) (live a) (hidx a) (updv (views a) t v) (born a) (ninv a).
 Definition GG (a : Aux) : list nat := dpre a ++ bnd a :: live a.
 Definition nptr (g : G) (x : nat) : option nat := fst (nxt g x).
 
+(** the nodes behind [x] in the chain *)
+Fixpoint after (x : nat) (l : list nat) : list nat :=
+  match l with
+  | [] => []
+  | y :: r => if Nat.eqb y x then r else after x r
+  end.
+
+Definition st_op (s : pst) : option qop := match s with PPend o _ _ => Some o | _ => None end.
+Definition st_id (s : pst) : nat := match s with PPend _ id _ => id | _ => 0 end.
+Definition st_ob (s : pst) : bool := match s with PPend _ _ ob => ob | _ => false end.
+
 Definition tv_ok (g : G) (a : Aux) (v : tview) : Prop :=
   (forall n, tv_priv v = Some n ->
-     (n < nalloc g)%nat /\ ~ In n (GG a) /\ nxt g n = tv_pnx v /\ tv_st v = PPend (Enq (val g n))) /\
+     (n < nalloc g)%nat /\ ~ In n (GG a) /\ nxt g n = tv_pnx v /\ st_op (tv_st v) = Some (Enq (val g n))) /\
   (forall m, In m (tv_inG v) -> In m (GG a)) /\
   (forall x i, In (x, i) (tv_idx v) -> nth_error (GG a) i = Some x /\ (i <= List.length (dpre a))%nat) /\
-  (tv_hlow v <= hidx a)%nat.
+  (tv_hlow v <= hidx a)%nat /\
+  (st_id (tv_st v) <= ninv a)%nat /\
+  (forall tl, tv_wit v = Some tl -> forall y, In y (after tl (GG a)) -> (st_id (tv_st v) <= born a y)%nat).
+
+Definition aitem (g : G) (a : Aux) (x : nat) : item := (val g x, born a x).
 
 Record Inv (g : G) (a : Aux) (tr : list (nat * ev)) : Prop := mkInv {
   I_nodup : NoDup (GG a);
@@ -82,7 +101,7 @@ Record Inv (g : G) (a : Aux) (tr : list (nat * ev)) : Prop := mkInv {
   I_tail : In (tail g) (GG a);
   I_views : forall t, tv_ok g a (views a t);
   I_privs : forall t t' n, t <> t' -> tv_priv (views a t) = Some n -> tv_priv (views a t') <> Some n;
-  I_pool : PoolInv (map (val g) (live a)) (fun t => tv_st (views a t)) (hist tr)
+  I_pool : PoolInv (map (aitem g a) (live a)) (fun t => tv_st (views a t)) (ninv a) (hist tr)
 }.
 
 Lemma updv_same vs t v : updv vs t v t = v.
@@ -109,9 +128,9 @@ Proof.
   - apply H. exact Hne.
 Qed.
 
-Lemma pool_upd q (vs : nat -> tview) h t v' :
-  PoolInv q (fun x => tv_st (vs x)) h -> tv_st v' = tv_st (vs t) ->
-  PoolInv q (fun x => tv_st (updv vs t v' x)) h.
+Lemma pool_upd q (vs : nat -> tview) n h t v' :
+  PoolInv q (fun x => tv_st (vs x)) n h -> tv_st v' = tv_st (vs t) ->
+  PoolInv q (fun x => tv_st (updv vs t v' x)) n h.
 Proof.
   intros H E. eapply pool_ext; [|exact H]. intros x. cbn. others x t Hne; auto.
 Qed.
@@ -125,15 +144,38 @@ Lemma tv_ok_mono g a g' a' v :
   (forall x i, nth_error (GG a) i = Some x -> (i <= List.length (dpre a))%nat ->
      nth_error (GG a') i = Some x /\ (i <= List.length (dpre a'))%nat) ->
   (hidx a <= hidx a')%nat ->
+  (ninv a <= ninv a')%nat ->
+  (forall tl y, In y (after tl (GG a')) ->
+     (In y (after tl (GG a)) /\ born a' y = born a y) \/ (ninv a <= born a' y)%nat) ->
   tv_ok g' a' v.
 Proof.
-  intros (P1 & P2 & P3 & P4) Hp Hl Hi Hh. split; [|split; [|split]].
+  intros (P1 & P2 & P3 & P4 & P5 & P6) Hp Hl Hi Hh Hn Ha. split; [|split; [|split; [|split; [|split]]]].
   - intros n E. destruct (P1 n E) as (A & B & C & D). destruct (Hp n E A B) as (A' & B' & C' & D').
     repeat split; auto; congruence.
   - intros m E. auto.
   - intros x i E. destruct (P3 x i E). auto.
   - lia.
+  - lia.
+  - intros tl E y Hy. destruct (Ha tl y Hy) as [(A & B)|A]; [rewrite B; eauto|lia].
 Qed.
+
+Lemma after_insert x (P Q : list nat) n y :
+  n <> x -> In y (after x (P ++ n :: Q)) -> y = n \/ In y (after x (P ++ Q)).
+Proof.
+  intros Hn. induction P as [|p P IH]; cbn [app after].
+  - destruct (Nat.eqb_spec n x) as [->|_]; [contradiction|]. auto.
+  - destruct (Nat.eqb p x); [|exact IH].
+    intros H. apply in_app_or in H. destruct H as [H|[H|H]];
+      [right; apply in_or_app; now left|now left|right; apply in_or_app; now right].
+Qed.
+
+Lemma after_notin x (P R : list nat) : ~ In x P -> after x (P ++ x :: R) = R.
+Proof.
+  induction P as [|p P IH]; cbn [app after]; intros H.
+  - now rewrite Nat.eqb_refl.
+  - destruct (Nat.eqb_spec p x) as [->|_]; [exfalso; apply H; now left|]. apply IH. intros H'. apply H. now right.
+Qed.
+
 
 (** ** steps that do not touch the chain or the pool status *)
 Lemma Inv_acc g a tr t k o b : Inv g a tr -> Inv g a (tr ++ Conc.tag t [EvAcc k o b]).
@@ -156,12 +198,13 @@ Lemma Inv_setv g a tr t v' :
   (forall m, In m (tv_inG v') -> In m (GG a)) ->
   (forall x i, In (x, i) (tv_idx v') -> nth_error (GG a) i = Some x /\ (i <= List.length (dpre a))%nat) ->
   (tv_hlow v' <= hidx a)%nat ->
+  tv_wit v' = tv_wit (views a t) ->
   Inv g (auxv a t v') tr.
 Proof.
-  intros [H1 H2 H3 H4 H5 H6 H7 H8 H9 H10] Es Ep Ex Hg Hi Hh.
-  constructor; auto; unfold auxv, GG in *; cbn [dpre bnd live hidx views] in *.
+  intros [H1 H2 H3 H4 H5 H6 H7 H8 H9 H10] Es Ep Ex Hg Hi Hh Hw.
+  constructor; auto; unfold auxv, GG in *; cbn [dpre bnd live hidx views born ninv] in *.
   - intros x. others x t Hne; [|apply H8].
-    destruct (H8 t) as (P1 & _). split; [|auto].
+    destruct (H8 t) as (P1 & _ & _ & _ & P5 & P6). split; [|rewrite Es, Hw; auto].
     intros n E. rewrite Ep in E. rewrite Es, Ex. apply (P1 n E).
   - apply privs_upd; [exact H9|]. intros n E x Hx. rewrite Ep in E. apply (H9 t x n); auto.
   - apply pool_upd; auto.
@@ -176,14 +219,14 @@ Proof. intros [H1 H2 H3 H4 H5 H6 H7 H8 H9 H10] Hx. constructor; auto. Qed.
 (** ** invoke / response / "empty" decision *)
 Lemma Inv_pev g a tr t (e : pev) es s' :
   Inv g a tr ->
-  tv_priv (views a t) = None ->
+  tv_priv (views a t) = None -> st_id s' = 0%nat ->
   (forall f : pmap, f t = tv_st (views a t) ->
-     pstep (map (val g) (live a), f) e = Some (map (val g) (live a), pupd f t s')) ->
+     pstep (mkPS (map (aitem g a) (live a)) f (ninv a)) e = Some (mkPS (map (aitem g a) (live a)) (pupd f t s') (ninv a))) ->
   hist (Conc.tag t es) = perase [e] ->
-  Inv g (auxv a t (mkTV s' None mnull [] [] 0)) (tr ++ Conc.tag t es).
+  Inv g (auxv a t (mkTV s' None mnull [] [] 0 None)) (tr ++ Conc.tag t es).
 Proof.
-  intros [H1 H2 H3 H4 H5 H6 H7 H8 H9 H10] Hp Hstep He.
-  constructor; auto; unfold auxv, GG in *; cbn [dpre bnd live hidx views] in *.
+  intros [H1 H2 H3 H4 H5 H6 H7 H8 H9 H10] Hp Hid Hstep He.
+  constructor; auto; unfold auxv, GG in *; cbn [dpre bnd live hidx views born ninv] in *.
   - intros x. others x t Hne; [|apply H8]. facts_nil.
   - apply privs_upd; [exact H9|]. cbn. discriminate.
   - rewrite hist_app, He.
@@ -203,7 +246,7 @@ Proof.
   assert (HnL : ~ In n (GG a)) by (intros Hin; apply H5 in Hin; unfold n in Hin; lia).
   assert (Hagree : forall x, In x (GG a) -> upd (nxt g) n mnull x = nxt g x).
   { intros x Hx. unfold upd. destruct (Nat.eqb_spec x n) as [->|]; [contradiction|reflexivity]. }
-  constructor; unfold auxv, GG in *; cbn [dpre bnd live hidx views head tail nxt val nalloc]; auto.
+  constructor; unfold auxv, GG in *; cbn [dpre bnd live hidx views born ninv head tail nxt val nalloc]; auto.
   - eapply linked_ext; [|exact H2]. intros x Hx. unfold nptr. cbn. now rewrite Hagree.
   - intros x Hx. cbn. rewrite Hagree; auto. apply in_or_app. now left.
   - intros x Hx. cbn. rewrite Hagree; auto. apply in_or_app. now right.
@@ -211,7 +254,7 @@ Proof.
   - intros x. others x t Hne.
     + split; [|facts_nil].
       cbn. intros m E. injection E as <-. fold n. unfold upd. rewrite !Nat.eqb_refl. auto.
-    + eapply tv_ok_mono; [apply H8| | | |]; unfold GG; cbn [dpre bnd live hidx views head tail nxt val nalloc]; auto.
+    + eapply tv_ok_mono; [apply H8| | | |]; unfold GG; cbn [dpre bnd live hidx views born ninv head tail nxt val nalloc]; auto.
       intros m _ Hm Hm1. fold n. unfold upd. destruct (Nat.eqb_spec m n) as [->|]; [unfold n in Hm; lia|].
       repeat split; auto.
   - apply privs_upd; [exact H9|]. cbn. intros m E x Hx E'. injection E as <-.
@@ -233,14 +276,14 @@ Proof.
   destruct (P1 n eq_refl) as (A & B & C & D).
   assert (Hagree : forall x, In x (GG a) -> upd (nxt g) n p x = nxt g x).
   { intros x Hx. unfold upd. destruct (Nat.eqb_spec x n) as [->|]; [contradiction|reflexivity]. }
-  constructor; unfold auxv, GG in *; cbn [set_next dpre bnd live hidx views head tail nxt val nalloc]; auto.
+  constructor; unfold auxv, GG in *; cbn [set_next dpre bnd live hidx views born ninv head tail nxt val nalloc]; auto.
   - eapply linked_ext; [|exact H2]. intros x Hx. unfold nptr. cbn. now rewrite Hagree.
   - intros x Hx. rewrite Hagree; auto. apply in_or_app. now left.
   - intros x Hx. rewrite Hagree; auto. apply in_or_app. now right.
   - intros x. others x t Hne.
     + split; [|split; [exact P2|split; [exact P3|exact P4]]].
       cbn. intros m E. injection E as <-. unfold upd. rewrite Nat.eqb_refl. auto.
-    + eapply tv_ok_mono; [apply H8| | | |]; unfold GG; cbn [set_next dpre bnd live hidx views head tail nxt val nalloc]; auto.
+    + eapply tv_ok_mono; [apply H8| | | |]; unfold GG; cbn [set_next dpre bnd live hidx views born ninv head tail nxt val nalloc]; auto.
       intros m Em Hm Hm1. repeat split; auto. unfold upd. destruct (Nat.eqb_spec m n) as [->|]; [|reflexivity].
       exfalso. apply (H9 x t n Hne Em). now rewrite Hv.
   - apply privs_upd; [exact H9|]. cbn. intros m E x Hx. injection E as <-. apply (H9 t x n); auto. now rewrite Hv.
@@ -316,7 +359,7 @@ Proof.
   { intros i x E. rewrite nth_error_app1; auto. apply nth_error_Some. congruence. }
   assert (Hpre : forall x, In x (dpre a) -> x <> tl).
   { intros x Hx ->. eapply nodup_disj; eauto. }
-  constructor; unfold auxset, GG; cbn [set_next dpre bnd live hidx views head tail nxt val nalloc]; rewrite ?EGG; fold (GG a).
+  constructor; unfold auxset, GG; cbn [set_next dpre bnd live hidx views born ninv head tail nxt val nalloc]; rewrite ?EGG; fold (GG a).
   - apply NoDup_snoc; auto.
   - rewrite El in *. apply NoDup_remove_2 in H1. rewrite app_nil_r in H1.
     eapply linked_snoc; eauto.
@@ -333,7 +376,7 @@ Proof.
   - intros x. others x t Hne2.
     + split; [cbn; intros; discriminate|]. split; [|facts_nil].
       cbn. intros m [<-|[]]. unfold GG. cbn. rewrite EGG. apply in_or_app. right. now left.
-    + eapply tv_ok_mono; [apply H8| | | |]; cbn [set_next dpre bnd live hidx views head tail nxt val nalloc]; auto.
+    + eapply tv_ok_mono; [apply H8| | | |]; cbn [set_next dpre bnd live hidx views born ninv head tail nxt val nalloc]; auto.
       * intros m Em Hm Hm1. repeat split; auto.
         -- unfold GG. cbn. rewrite EGG. intros Hi. apply in_app_or in Hi. destruct Hi as [Hi|[<-|[]]]; [contradiction|].
            apply (H9 x t n Hne2 Em). now rewrite Hv.
@@ -395,7 +438,7 @@ Proof.
                              nth_error (dpre a ++ bnd a :: lv') i = Some x).
   { intros x i E Hi. rewrite EG2. rewrite EG1 in E. rewrite <- E. apply nth_error_low.
     rewrite !app_length. cbn. lia. }
-  constructor; unfold auxset, GG; cbn [set_next dpre bnd live hidx views head tail nxt val nalloc]; fold lv'; fold (GG a).
+  constructor; unfold auxset, GG; cbn [set_next dpre bnd live hidx views born ninv head tail nxt val nalloc]; fold lv'; fold (GG a).
   - rewrite EG2. apply NoDup_insert; [rewrite <- EG1; exact H1|rewrite <- EG1; exact B].
   - rewrite EGG. eapply linked_insert with (nx := nptr g).
     + rewrite <- EG0. exact H1.
@@ -420,7 +463,7 @@ Proof.
   - intros x. others x t Hne2.
     + split; [cbn; intros; discriminate|]. split; [|facts_nil].
       cbn. intros m [<-|[]]. unfold GG. cbn. fold lv'. rewrite EG2. apply in_or_app. right. now left.
-    + eapply tv_ok_mono; [apply H8| | | |]; cbn [set_next dpre bnd live hidx views head tail nxt val nalloc]; auto.
+    + eapply tv_ok_mono; [apply H8| | | |]; cbn [set_next dpre bnd live hidx views born ninv head tail nxt val nalloc]; auto.
       * intros m Em Hm Hm1. repeat split; auto.
         -- unfold GG. cbn. fold lv'. rewrite EG2. intros Hi. apply in_insert_inv in Hi. destruct Hi as [->|Hi].
            ++ apply (H9 x t n Hne2 Em). now rewrite Hv.
@@ -464,7 +507,7 @@ Proof.
   assert (Hbx : forall y, In y (dpre a) \/ In y (x :: r') -> y <> bnd a).
   { intros y Hy ->. unfold GG in H1. rewrite Er in H1. apply NoDup_remove_2 in H1. apply H1.
     apply in_or_app. exact Hy. }
-  constructor; unfold auxset, GG; cbn [set_next dpre bnd live hidx views head tail nxt val nalloc];
+  constructor; unfold auxset, GG; cbn [set_next dpre bnd live hidx views born ninv head tail nxt val nalloc];
     rewrite ?Er; cbn [List.tl]; rewrite ?EGG; auto.
   - eapply linked_ext; [|exact H2]. intros y Hy. unfold nptr. cbn. unfold upd.
     destruct (Nat.eqb_spec y (bnd a)) as [->|]; [now rewrite Hnx|reflexivity].
@@ -481,7 +524,7 @@ Proof.
         eapply linked_nth; [exact H2|exact Ej|]. unfold nptr. now rewrite Hnx.
       * destruct (P3 y i Hi) as (A1 & A2). unfold GG. cbn. rewrite EGG. split; [exact A1|].
         rewrite app_length. cbn. lia.
-    + eapply tv_ok_mono; [apply H8| | | |]; cbn [set_next dpre bnd live hidx views head tail nxt val nalloc]; auto.
+    + eapply tv_ok_mono; [apply H8| | | |]; cbn [set_next dpre bnd live hidx views born ninv head tail nxt val nalloc]; auto.
       * intros m Em Hm Hm1. repeat split; auto.
         -- unfold GG. cbn. rewrite EGG. exact Hm1.
         -- unfold upd. destruct (Nat.eqb_spec m (bnd a)) as [->|]; [|reflexivity].
@@ -512,10 +555,10 @@ Proof.
   { apply (proj1 (NoDup_nth_error (GG a)) H1).
     - apply nth_error_Some. congruence.
     - rewrite E1, Ei. congruence. }
-  constructor; unfold auxset, GG in *; cbn [set_head dpre bnd live hidx views head tail nxt val nalloc]; auto.
+  constructor; unfold auxset, GG in *; cbn [set_head dpre bnd live hidx views born ninv head tail nxt val nalloc]; auto.
   - intros y. others y t Hny.
     + split; [exact P1|]. split; [exact P2|]. split; [exact P3|]. cbn. lia.
-    + eapply tv_ok_mono; [apply H8| | | |]; unfold GG; cbn [set_head dpre bnd live hidx views head tail nxt val nalloc]; auto.
+    + eapply tv_ok_mono; [apply H8| | | |]; unfold GG; cbn [set_head dpre bnd live hidx views born ninv head tail nxt val nalloc]; auto.
       lia.
   - apply privs_upd; [exact H9|]. intros n E y Hy. apply (H9 t y n); auto.
   - apply pool_upd; auto.
